@@ -402,7 +402,7 @@ func runPipelines(ctx *bex.Ctx) {
 			}
 		}
 	})
-	ctx.SpaceDone("29 misuse / error-path programs of multiUse, merge, map, accept (arguments rejected at every position of the validation, failing or wrongly typed consumers, comparators and stages) x sizes 0,1,3; 14 sources (parallel map/accept, failing elements in both phases, merge) x 14 consumers (first, top, present, indexWhere, single, ~, size, reduce, multiUse) x sizes around the switch to parallel execution; all schedules; W=2")
+	ctx.SpaceDone("29 misuse / error-path programs of multiUse, merge, map, accept (arguments rejected at every position of the validation, failing or wrongly typed consumers, comparators and stages) x sizes 0,1,3; 14 sources (parallel map/accept, failing elements in both phases, merge, number/combine/compact/cross/iir with a slow function) x 17 consumers (first, top, present, indexWhere, single, ~, = with lists, size, reduce, multiUse) x sizes around the switch to parallel execution; all schedules; W=2")
 }
 
 func copyMap(m map[string]any) map[string]any {
